@@ -4,6 +4,7 @@ C14 — intersection of two straight segments (`Intersection.lines`) and the fla
 Quantifiers: ALL rational end points / parameters, ALL lists of segments.
 -/
 import ShapeVerif.Proofs.Geom
+import ShapeVerif.Gen.Tables
 
 namespace ShapeVerif.C14
 open ShapeVerif ShapeVerif.Geom
@@ -127,5 +128,18 @@ example :
     jordanInter (Jordan.fromVertices [⟨0,0⟩, ⟨2,0⟩, ⟨2,2⟩, ⟨0,2⟩])
       (Jordan.fromVertices [⟨1,1⟩, ⟨3,1⟩, ⟨3,3⟩, ⟨1,3⟩]) false false
       = [⟨1, 0, some (1/2, 1/2)⟩, ⟨2, 3, some (1/2, 1/2)⟩] := by decide +kernel
+
+
+/-! ### tie to the source: the flag filters regenerated from `JordanCurve.intersection` on every run -/
+
+/-- the keep-condition of the `end_points=False` filter written in the source is the model's `!isEndPair`, for ALL parameters,
+and `(None, None)` entries survive it; `equal_beziers=False` removes exactly the `(None, None)` entries -/
+theorem translated_flag_filters :
+    Gen.equalBeziersFilterRemovesNone = true ∧ Gen.keepWithoutEndPoints none = true ∧
+    ∀ u v : Rat, Gen.keepWithoutEndPoints (some (u, v)) = !(isEndPair u v) := by
+  refine ⟨rfl, rfl, ?_⟩
+  intro u v
+  simp only [Gen.keepWithoutEndPoints, isEndPair]
+  by_cases h1 : (0 : Rat) < u <;> by_cases h2 : u < 1 <;> by_cases h3 : (0 : Rat) < v <;> by_cases h4 : v < 1 <;> simp [h1, h2, h3, h4]
 
 end ShapeVerif.C14
